@@ -93,7 +93,9 @@ def truncated_svd(
 
     if algorithm == "svd":
         start = time.time()
-        svd = torch.linalg.svd(M)[:2]
+        svd = torch.linalg.svd(M, full_matrices=False)
+        Vh = svd[2]
+        svd = svd[:2]
 
         singular_vectors = "left"
         if verbose:
@@ -167,7 +169,14 @@ def truncated_svd(
         if left_ortho:
             M2 = left.permute(dims_permute) @ M
         else:
-            M2 = (1.0 / svd[1][..., :rank])[..., None] * left.permute(dims_permute) @ M
+            if algorithm == "svd":
+                M2 = Vh[..., :rank, :]  # Orthonormal also when singular values are at noise level
+            else:
+                M2 = (
+                    (1.0 / svd[1][..., :rank])[..., None]
+                    * left.permute(dims_permute)
+                    @ M
+                )
             if batch:
                 left = torch.einsum("bij,bj->bij", left, svd[1][..., :rank])
             else:
